@@ -168,6 +168,7 @@ type pathCtx struct {
 	obsRaw      []obsRaw
 	subs        []*subSearch
 	pcSet       map[string]bool
+	taint       string
 	pureSkip    map[*ssa.Function]int
 	sigs        map[string]*Term // known-finding signatures declared so far on this path
 	sigOrd      []string
@@ -331,6 +332,10 @@ func (e *Engine) runPath(h *harnessRun, solver *Solver, prefix []int, local *Sta
 	}
 	if outcome == "unsupported" {
 		c.incon = append(c.incon, panicMsg)
+	}
+	if c.taint != "" && (outcome == "ok" || outcome == "expected_panic") {
+		c.incon = append(c.incon, "path not covered by the string model: "+c.taint)
+		local.Outcomes["tainted"]++
 	}
 	// keep a model of the completed path (vacuity witness / translation validation / sample)
 	var sample *PathSample
